@@ -66,8 +66,19 @@ func genC14(ev *Ev) func(t *rapid.T) model.Case {
 			g := &gs{}
 			op.FARs = append(op.FARs, model.FAR{ID: 1, Action: model.ActFORW, HasFwd: true, DstIf: model.IfCore})
 			op.PDRs = append(op.PDRs, model.PDR{ID: 1, Prec: 10, Src: "access", FTEID: true, TEID: c.teidUL, N3: accessIP(), OHR: true, FAR: 1})
+			// the downlink rules of one PDU session usually share its N3 tunnel (one rule per QoS flow)
+			shareTun := rapid.Bool().Draw(t, "sharetun")
+			var first *model.FAR
 			for k := 0; k < nDL; k++ {
 				f := genDLFAR(t, ruleKnobs{buffer: rapid.IntRange(0, 3).Draw(t, "buf") == 0}, c, uint32(10+k))
+				if f.HasOHC && shareTun {
+					if first == nil {
+						ff := f
+						first = &ff
+					} else {
+						f.TEID, f.Peer = first.TEID, first.Peer
+					}
+				}
 				op.FARs = append(op.FARs, f)
 				sdf := ""
 				if k > 0 {
@@ -87,6 +98,10 @@ func genC14(ev *Ev) func(t *rapid.T) model.Case {
 			seq++
 			nUpd := rapid.IntRange(1, 3).Draw(t, "nupd")
 			used := map[uint32]bool{}
+			// a handover moves every rule of the session to the same new tunnel
+			handover := rapid.Bool().Draw(t, "handover")
+			hoTEID := uint32(rapid.IntRange(1, 1<<30).Draw(t, "hoteid"))
+			hoPeer := fmt.Sprintf("198.18.%d.%d", 3+rapid.IntRange(0, 3).Draw(t, "hopn"), rapid.IntRange(2, 9).Draw(t, "hoph"))
 			for u := 0; u < nUpd; u++ {
 				if rapid.IntRange(0, 6).Draw(t, "unknown?") == 0 {
 					// Update FAR naming an unknown FAR: the update fails, nothing may be emitted for it
@@ -100,6 +115,9 @@ func genC14(ev *Ev) func(t *rapid.T) model.Case {
 				used[g.fars[i].ID] = true
 				nf := model.FAR{ID: g.fars[i].ID, Action: model.ActFORW, HasFwd: true, DstIf: model.IfAccess, HasOHC: true,
 					TEID: uint32(rapid.IntRange(1, 1<<30).Draw(t, "nteid")), Peer: fmt.Sprintf("198.18.%d.%d", 3+rapid.IntRange(0, 3).Draw(t, "pn"), rapid.IntRange(2, 9).Draw(t, "ph"))}
+				if handover {
+					nf.TEID, nf.Peer = hoTEID, hoPeer
+				}
 				switch rapid.IntRange(0, 5).Draw(t, "shape") {
 				case 0:
 					nf = model.FAR{ID: nf.ID, Action: model.ActBUFF | model.ActNOCP, HasFwd: true}
